@@ -62,6 +62,11 @@ func genList(vals ...interface{}) func(func(reflect.Value)) {
 	}
 }
 
+// Level is a string-backed enum whose String method renders something else than its text.
+type Level string
+
+func (l Level) String() string { return "Level(" + strings.ToUpper(string(l)) + ")" }
+
 var signedNum = regexp.MustCompile(`^[+-][0-9]+(\.[0-9]+)?$`)
 
 // canon renders a scalar the way the documentation says numbers are compared (canonical decimal).
@@ -343,6 +348,10 @@ func specs(c *runner.Ctx) []spec {
 				for _, x := range []interface{}{"ab", "1.5", "0.1", "a/b", "/d", "true", "1.50", "abc", int(1), int8(1), int64(15), uint(1), uint8(5), float64(1.5), float32(1.5), float32(0.1), float64(0.1), float64(1), float32(16777.217), true} {
 					emit(rv(x))
 				}
+				// string-backed enums with a String method of their own: the value is its text, not its rendering
+				for _, x := range []string{"a", "b", "ab", "1", "1.5", "中", "A", "Level(A)"} {
+					emit(rv(Level(x)))
+				}
 			}})
 		hasEmpty := false
 		for _, o := range opts {
@@ -360,7 +369,24 @@ func specs(c *runner.Ctx) []spec {
 				for _, x := range []string{"xabx", "x1.5", "0.1", "xa/b", "truex", "tru"} {
 					emit(rv(x))
 				}
+				for _, x := range []string{"a", "xabx", "1", "Level", "L", "(", "中"} {
+					emit(rv(Level(x)))
+				}
 			}})
+	}
+	// two rules on one field, each with quoted text of its own (the second one is the last thing in the rule string)
+	{
+		inOpts := lang.Options("'2024/01/02'/'2024/01/03'/x")
+		dateRe := regexp.MustCompile(`^\d{4}/\d{2}/\d{2}$`)
+		vals := genList("2024/01/02", "2024/01/03", "2024/01/04", "x", "2024-01-02", "'2024/01/02'", "2024/01", "2024/13/45", "required", "a/b")
+		out = append(out,
+			spec{space: "in(quoted options) then date(quoted separator)", rule: "in=('2024/01/02'/'2024/01/03'/x),date='/'",
+				rec: strRec(func(s string) bool { return lang.In(s, inOpts) && dateRe.MatchString(s) }), gen: vals},
+			spec{space: "in(quoted options) then re", rule: "in=('a/b'/required/'2024/01/02'),re='^[a-z/]+$'",
+				rec: strRec(func(s string) bool { return lang.In(s, lang.Options("'a/b'/required/'2024/01/02'")) && regexp.MustCompile(`^[a-z/]+$`).MatchString(s) }), gen: vals},
+			spec{space: "include(quoted option) then in(quoted options)", rule: "include=('a/b'),in=('a/b'/'xa/bx'/'2024/01/02')",
+				rec: strRec(func(s string) bool { return strings.Contains(s, "a/b") && lang.In(s, lang.Options("'a/b'/'xa/bx'/'2024/01/02'")) }),
+				gen: genList("a/b", "xa/bx", "2024/01/02", "a", "xa/b", "'a/b'")})
 	}
 	// re
 	reValAlpha := []string{"a", "b", "x", "y", "z", "1", ",", "'", "|", "\\", "d"}
